@@ -216,10 +216,28 @@ def make_fragment(mod, fn, frag):
     modnames = set(mod.funcs) | set(mod.classes) | set(mod.assigns) | set(mod.imports)
     params = [n for n in loaded if not hasattr(_builtins, n) and n not in modnames]
     ret = ast.Return(value=ast.Call(func=ast.Name(id='locals', ctx=ast.Load()), args=[], keywords=[]))
+    body_stmts = list(loop.body)
+    if kind == 'loopbody':
+        # `continue` at the level of this loop ends the iteration: in the wrapper that is `return locals()`
+        import copy
+
+        class _C(ast.NodeTransformer):
+            def visit_For(self, node):
+                return node          # a continue inside an inner loop belongs to that loop
+
+            def visit_While(self, node):
+                return node
+
+            def visit_FunctionDef(self, node):
+                return node
+
+            def visit_Continue(self, node):
+                return ast.copy_location(copy.deepcopy(ret), node)
+        body_stmts = [_C().visit(copy.deepcopy(st)) for st in body_stmts]
     wrapper = ast.FunctionDef(name='%s__%s_%s' % (fn.name, kind, arg),
                               args=ast.arguments(posonlyargs=[], args=[ast.arg(arg=p) for p in params], kwonlyargs=[],
                                                  kw_defaults=[], defaults=[]),
-                              body=list(loop.body) + [ret], decorator_list=[])
+                              body=body_stmts + [ret], decorator_list=[])
     ast.fix_missing_locations(wrapper)
     wrapper._frag_src = '\n'.join(mod.segment(st) or '' for st in loop.body)
     wrapper._frag_params = params
